@@ -1,4 +1,5 @@
 import ParryModel.C04.Theorems3
+import ParryModel.C04.Theorems6
 /-!
 # C04 property theorems, part 7: the 2-D `clip_aabb_line` / `Aabb::cast_local_ray_and_get_normal` (normals)
 
@@ -223,6 +224,44 @@ theorem aabb2_normalCast_nonsolid_inside (big : K) (b : RcAabb2 K) (ray : Ray2 K
     · exact Or.inl h3
     · exact Or.inr ⟨fun s a c => (aabbMem_embT sq b ray s).1 (h3 s a c),
         fun s a c hm => h4 s a c ((aabbMem_embT sq b ray s).2 hm)⟩
+
+/-! ## posed normal forms of the 2-D crate (`cast_ray_and_get_normal`) -/
+
+/-- the time reported by the 2-D `Ball::cast_local_ray_and_get_normal` is the one of `cast_local_ray` -/
+theorem ball2_getNormal_toi (s : Ball K) (ray : Ray2 K) (max : K) (solid : Bool) :
+    letI := fieldNum K sq
+    (s.castLocalRayAndGetNormal2 ray max solid).map (·.toi) = s.castLocalRay2 ray max solid := by
+  simp only [Ball.castLocalRayAndGetNormal2, Ball.castLocalRay2, rayToiAndNormalWithBall2]
+  rcases @rayToiWithBall2 K (fieldNum K sq) (@V2.zero K (fieldNum K sq)) s.r ray solid with ⟨ins, inter⟩
+  cases inter with
+  | none => rfl
+  | some t =>
+    simp only [Option.map_some, Option.filter]
+    by_cases hm : t ≤ max <;> simp [hm]
+
+/-- **2-D `Ball::cast_ray_and_get_normal`, solid** (unit complex rotation, non-zero direction): the reported time is the first
+hit of the posed disc along the world ray -/
+theorem ball2_posedNormal_solid_firstHit (hs : LawfulSqrt sq) (b : Ball K) (m : Iso2 K) (ray : Ray2 K) (max : K)
+    (hq : m.re * m.re + m.im * m.im = 1) :
+    letI := fieldNum K sq
+    0 < ray.d.normSq →
+    FirstHit (fun p => b.Mem2 (m.invAct p)) (rayPt2 sq ray) max ((b.castRayAndGetNormal2 m ray max true).map (·.toi)) := by
+  intro ha
+  rw [(posed2_normal_toi sq 0 b ⟨⟨0, 0⟩⟩ m ray max true).1, ball2_getNormal_toi]
+  exact ball2_posed_solid_firstHit sq hs b m ray max hq ha
+
+/-- **2-D `Cuboid::cast_ray_and_get_normal`, solid**: the reported time is the first hit of the posed rectangle along the
+world ray (positive half-extents) -/
+theorem cuboid2_posedNormal_solid_firstHit (big : K) (s : Cuboid2 K) (m : Iso2 K) (ray : Ray2 K) (max : K)
+    (hhe : 0 < s.he.x ∧ 0 < s.he.y) (hmax0 : 0 ≤ max) (hmaxb : max ≤ big) :
+    letI := fieldNum K sq
+    FirstHit (fun p => s.Mem (m.invAct p)) (rayPt2 sq ray) max ((s.castRayAndGetNormal big m ray max true).map (·.toi)) := by
+  rw [(posed2_normal_toi sq big ⟨0⟩ s m ray max true).2]
+  have h := aabb2_normalCast_solid_firstHit sq big ⟨@V2.neg K (fieldNum K sq) s.he, s.he⟩
+    (@Ray2.invTransform K (fieldNum K sq) ray m) max
+    ⟨by simp only [V2.neg]; linarith [hhe.1], by simp only [V2.neg]; linarith [hhe.2]⟩ hmax0 hmaxb
+  exact (firstHit_posed2 sq _ m ray max _).1 h
+
 
 /-- non-vacuity: a non-degenerate rectangle and `0 ≤ max ≤ big` (over `ℚ`); the 2-D cast from `(3, 0)` along `(-2, 0)`
 hits the unit square at `toi = 1` with normal `(1, 0)` -/
